@@ -31,6 +31,16 @@ func checkEngineInvariants(r *Run, prog *Program, pfx string) {
 	}
 	r.Analysed(pr.String())
 	ps := NewPathSim(prog)
+	// helpers of the engine (a push/parse/pop triple shared with the repetitions) are interpreted in place; the descent
+	// itself, the primitives and the other combinators stay calls
+	eng := newPegEngine(prog)
+	ps.Inline = func(c *ssa.Function) bool {
+		if c == pe || c == pr || c.Pkg != prog.GrammarSSA || eng.primitive(c) || eng.combinatorOf(c) {
+			return false
+		}
+		o := c.Object()
+		return o == nil || !o.Exported()
+	}
 	sums := ps.Run(pr)
 	ok := len(sums) >= 1
 	for _, sm := range sums {
@@ -40,7 +50,7 @@ func checkEngineInvariants(r *Run, prog *Program, pfx string) {
 		}
 		calls := sm.callsTo(pe)
 		a, b := sm.Results[0], sm.Results[1]
-		if len(calls) != 1 || a.K != sRes || b.K != sRes || a.A != b.A || a.A.Key() != calls[0].Res.Key() {
+		if len(calls) != 1 || a.K != sRes || b.K != sRes || a.A.Key() != b.A.Key() || a.A.Key() != calls[0].Res.Key() {
 			ok = false
 			continue
 		}
